@@ -479,6 +479,23 @@ def _mutated_names(e):
 _TERMINAL = ('PANIC', 'break', 'continue')
 
 
+def _split_top(x):
+    """split a canonical string at its top-level commas"""
+    out, d, cur = [], 0, []
+    for ch in x:
+        if ch in '([{':
+            d += 1
+        elif ch in ')]}':
+            d -= 1
+        if ch == ',' and d == 0:
+            out.append(''.join(cur).strip())
+            cur = []
+        else:
+            cur.append(ch)
+    out.append(''.join(cur).strip())
+    return out
+
+
 def _prime(en, locals_names):
     """new env in which every (local id, source name) of locals_names reads as the next version
     (name') of its current canonical name: what is read after an assignment is a new value"""
@@ -533,7 +550,9 @@ def _paths(e, env=None, conds=frozenset(), effects=()):
         for s in e.get('stmts', []):
             nxt = []
             for cs, ef, en in pending:
-                if s['k'] == 'Let' and 'init' in s and s['pat'].get('k') == 'Binding' and \
+                if s['k'] == 'Let' and 'init' in s and \
+                        (s['pat'].get('k') == 'Binding' or
+                         (s['pat'].get('k') == 'Tuple' and all(q_.get('k') in ('Binding', 'Wild') for q_ in s['pat']['ch']))) and \
                         peel(s['init']).get('k') in ('If', 'Match', 'Block') and _has_ret(peel(s['init'])):
                     # `let x = if c { return .. } else { e }`: control flow, not a value to inline
                     for c2, leaf, ef2, en2 in _paths(peel(s['init']), en, cs, ef):
@@ -541,7 +560,20 @@ def _paths(e, env=None, conds=frozenset(), effects=()):
                             yield c2, leaf, ef2, en2
                         else:
                             en2 = dict(en2)
-                            en2[s['pat']['local']] = leaf
+                            if s['pat'].get('k') == 'Binding':
+                                en2[s['pat']['local']] = leaf
+                            else:
+                                comps = _split_top(leaf[1:-1]) if leaf.startswith('(') and leaf.endswith(')') else []
+                                if len(comps) == len(s['pat']['ch']):
+                                    for q_, c_ in zip(s['pat']['ch'], comps):
+                                        if q_.get('k') == 'Binding':
+                                            en2[q_['local']] = c_
+                                else:
+                                    nm = _fresh(en2, 'v')
+                                    ef2 = tuple(ef2) + ('%s := %s' % (nm, leaf),)
+                                    for i_, q_ in enumerate(s['pat']['ch']):
+                                        if q_.get('k') == 'Binding':
+                                            en2[q_['local']] = '%s.%d' % (nm, i_)
                             nxt.append((c2, ef2, en2))
                 elif s['k'] == 'Let' and 'init' in s and s['pat'].get('k') == 'Binding' and \
                         peel(s['init']).get('k') in ('If', 'Match') and try_operand(peel(s['init'])) is None \
@@ -622,6 +654,9 @@ def _paths(e, env=None, conds=frozenset(), effects=()):
                             if leaf.startswith('return ') or leaf in _TERMINAL:
                                 yield c2, leaf, ef2, en2
                             else:
+                                if leaf not in ('()', 'NULL') and re.search(r'\w\(', leaf):
+                                    # a branch that ends in a call evaluated for its effect
+                                    ef2 = tuple(ef2) + (leaf,)
                                 nxt.append((c2, ef2, en2))
                     elif x.get('k') == 'Ret':
                         v = canon(x['ch'][0], en) if x.get('ch') else '()'
@@ -1214,6 +1249,19 @@ def simplify(cs):
 def unprime(x):
     """drop the version marks (name' = value after an assignment) from a canonical string"""
     return re.sub(r"(?<=[\w\]])'+", '', x)
+
+
+def select_rows(t, binding):
+    """rows of a table whose conditions all hold at a sample point (see holds); None if some
+    condition cannot be evaluated there"""
+    out = []
+    for cs, leaf, ef in t:
+        vals = [holds(c, binding) for c in cs]
+        if None in vals:
+            return None
+        if all(vals):
+            out.append((cs, leaf, ef))
+    return out
 
 
 def holds(cond, binding):
